@@ -461,6 +461,57 @@ def rule_index_kind(P):
     return R
 
 
+def rule_diag_fold_total(P):
+    """relation splitting: the largest common diagonal of a relation node is the INTERSECTION of the diagonal entries of ALL its rows,
+    folded as `op->computeTemp(acc, x, acc)` inside a loop over the rows (the first row initialises acc with .set).  0 is absorbing for
+    intersection, so an iteration that skips the fold step (an empty row passed over) leaves a diagonal that the skipped row does not have,
+    and moving that diagonal to a lower level gives the skipped local state transitions the relation never had."""
+    R = RuleResult("fold.diagonal-covers-rows", "in every loop that folds a common diagonal with `op->computeTemp(acc, x, acc)`, each iteration passes a fold step (that call, or the .set that initialises acc): no path from the loop body's entry back to the loop test avoids both")
+    seen = set()
+    n = 0
+    for f in sorted(P.fns.values(), key=lambda f: (f["file"], f["line"], f["inst"])):
+        if not f.get("cfg") or (f["file"], f["line"]) in seen or not (f["file"].startswith("operations/") or f["file"].startswith("sat_")):
+            continue
+        if not any(e["k"] == "call" and e["q"].endswith("::computeTemp") for b in f["cfg"]["blocks"] for e in b["ev"]):
+            continue
+        g = Graph(f)
+        folds = [k for k in g.nodes if k.kind == "call" and k.ev["q"].endswith("::computeTemp") and len(k.ev.get("args", [])) == 3 and
+                 _nz(k.ev["args"][0]) == _nz(k.ev["args"][2]) and "ntersect" in (k.ev.get("recv") or "")]
+        for F in folds:
+            acc = _nz(F.ev["args"][0])
+            step = lambda k, acc=acc: (k.kind == "call" and k.ev["q"].endswith("::computeTemp") and len(k.ev.get("args", [])) == 3 and _nz(k.ev["args"][2]) == acc) or \
+                                      (k.kind == "call" and k.ev["q"].endswith("dd_edge::set") and _nz(k.ev.get("recv") or "") == acc)
+            best = None
+            for B in g.nodes:
+                if B.kind != "branch" or not B.cond or len(B.succ) != 2:
+                    continue
+                for s_, i in B.succ:
+                    body = g.reach([s_], avoid=lambda k, B=B: k.id == B.id)
+                    if F.id in body and any(t == B.id for x in body for t, _ in g.nodes[x].succ):
+                        if best is None or len(body) < best[2]:
+                            best = (B, s_, len(body))
+            if best is None:
+                continue
+            seen.add((f["file"], f["line"]))
+            n += 1
+            R.functions.add(f["inst"])
+            R.paths += 1
+            B, entry, _sz = best
+            iid = "%s: every iteration of the row loop at line %d folds into %s" % (base_name(f["q"]).replace(M, "")[:60], B.line, acc)
+            p = None if step(g.nodes[entry]) else g.path(entry, lambda k, B=B: k.id == B.id, avoid=step)
+            if p is None:
+                R.ok(iid, where(f, F.line))
+            else:
+                skip = [k for k in p if k.kind == "branch" and k.cond]
+                R.fail(iid, where(f, F.line), Finding(R.rule, f["file"], base_name(f["q"]), "fold@%s" % acc,
+                       "an iteration of the row loop (line %d) can return to the loop test without folding into %s%s: the skipped row's diagonal entry (0 for an empty row, which empties the intersection) is left out of the common diagonal" % (
+                           B.line, acc, (" — via the test `%s` at line %d" % (skip[0].cond["text"][:60], skip[0].line)) if skip else ""), F.line, path=p, inst=f["inst"]))
+    if n < 4:
+        raise AnalysisBroken("fold.diagonal-covers-rows: expected the 4 common-diagonal folds (sat_relations, transitive_closure, constrained x2), found %d" % n)
+    R.require_floor(4, "common-diagonal folds")
+    return R
+
+
 def rule_fold_zeros(P):
     """scalar folds over a diagram (cardinality, largest / smallest value): a node unpacked SPARSE_ONLY shows only its non-zero children, so
     the implicit zero children are left out of the fold.  That is sound only when a zero child contributes the accumulator's neutral
@@ -1566,4 +1617,4 @@ def rule_chain_from_built(P):
     return R
 
 
-RULES = [rule_next_level, rule_terminal_type, rule_index_kind, rule_fold_zeros, rule_card_skipped, rule_mark_once, rule_array_extent, rule_position_kind, rule_operand_unpack, rule_chain_args, rule_compare_after_store, rule_skip_rule_consulted, rule_diagonal_lift, rule_identity_needs_rule, rule_saturation_provenance, rule_chain_from_built]
+RULES = [rule_next_level, rule_terminal_type, rule_index_kind, rule_fold_zeros, rule_diag_fold_total, rule_card_skipped, rule_mark_once, rule_array_extent, rule_position_kind, rule_operand_unpack, rule_chain_args, rule_compare_after_store, rule_skip_rule_consulted, rule_diagonal_lift, rule_identity_needs_rule, rule_saturation_provenance, rule_chain_from_built]
